@@ -3,10 +3,13 @@
 #include <dbus/dbus-internals.h>
 #include <stdarg.h>
 #include "vf.h"
+/* vf_assert_as_assume: a harness may run a *preparatory* call whose internal assertions
+ * define the reachable pre-state (they are then assumptions, stated in the job) */
+int vf_assert_as_assume;
 void _dbus_real_assert (dbus_bool_t condition, const char *condition_text, const char *file, int line, const char *func)
-{ VF_ASSERT (condition, "dbus internal assertion (_dbus_assert)"); VF_ASSUME (condition); }
+{ if (!vf_assert_as_assume) VF_ASSERT (condition, "dbus internal assertion (_dbus_assert)"); VF_ASSUME (condition); }
 void _dbus_real_assert_not_reached (const char *explanation, const char *file, int line)
-{ VF_ASSERT (0, "dbus _dbus_assert_not_reached"); VF_ASSUME (0); }
+{ if (!vf_assert_as_assume) VF_ASSERT (0, "dbus _dbus_assert_not_reached"); VF_ASSUME (0); }
 void _dbus_verbose_real (const char *file, const int line, const char *function, const char *format, ...) { }
 void _dbus_warn_check_failed (const char *format, ...) { VF_ASSERT (0, "dbus _dbus_warn_check_failed (public API precondition)"); }
 void _dbus_warn (const char *format, ...) { }
